@@ -27,10 +27,11 @@ RE_FLAGS = re.MULTILINE | re.DOTALL
 class AbsMatch(Native):
     """groups: list of (name|None, start, end) with (-1,-1) = did not participate."""
 
-    def __init__(self, subject: str, start: int, end: int, groups=()):
+    def __init__(self, subject: str, start: int, end: int, groups=(), lastindex=None):
         self.subject = subject
         self.s, self.e = start, end
         self.grps = list(groups)
+        self.lastindex = lastindex       # number of the group CLOSED last (differs from the highest participating one when groups nest)
 
     def _idx(self, k):
         if isinstance(k, bool) or not isinstance(k, (int, str)):
@@ -68,8 +69,13 @@ class AbsMatch(Native):
         if name == "end":
             return NativeMethod(lambda it, a, kw: self.span_of(*a)[1])
         if name == "lastindex":
+            if self.lastindex is not None:
+                return self.lastindex
             idx = [i + 1 for i, g in enumerate(self.grps) if g[1] >= 0]
             return max(idx) if idx else None
+        if name == "lastgroup":
+            li = self.sa_getattr(interp, "lastindex")
+            return self.grps[li - 1][0] if li else None
         if name == "string":
             return self.subject
         if name == "regs":
@@ -337,6 +343,19 @@ def wide_matches(subject):
     return out
 
 
+def nested_matches(subject):
+    """Matches whose groups NEST (an outer group closes after the inner ones, so `lastindex` is the outer group's
+    number although higher-numbered groups took part), with a trailing optional group that does not participate,
+    and an alternation-in-a-loop shape where the group closed last is not the highest-numbered participant."""
+    n = len(subject)
+    return [
+        AbsMatch(subject, 0, 6, [("pair", 0, 6), ("key", 0, 2), (None, 3, 6), (None, -1, -1)], lastindex=1),
+        AbsMatch(subject, 7, 12, [("pair", 7, 11), ("key", 7, 8), (None, 9, 11), (None, 11, 12)], lastindex=4),
+        AbsMatch(subject, n - 4, n, [(None, n - 2, n - 1), ("w", n - 1, n), (None, n - 4, n - 3)], lastindex=2),
+        AbsMatch(subject, n, n, [("pair", n, n), ("key", n, n), (None, -1, -1), (None, -1, -1)], lastindex=1),
+    ]
+
+
 # a text witness made of the characters matching code could treat specially -----------------
 def rich_text(model: Model):
     """Line-ending and control characters, a non-character, an astral character, plus every short string constant
@@ -360,10 +379,30 @@ def rich_text(model: Model):
     return "x".join(parts) + "\r\n"
 
 
+def rich_texts(model: Model):
+    """The rich witness, plus variants that START / END with each special candidate (a byte order mark, line
+    endings, blanks, NUL and every short string constant of the matching code): normalisations such as
+    strip / removeprefix / rstrip only bite at the edges."""
+    rich = rich_text(model)
+    consts = [p for p in rich.split("x") if p and len(p) <= 4][1:]
+    edge = ["\ufeff", "\n", "\r\n", " ", "\t", "\x00", "\ufffe", "\u200b"] + consts
+    seen, out = set(), [rich]
+    for c in edge:
+        if c in seen or not c:
+            continue
+        seen.add(c)
+        out.append(c + "ab cd" + c + c + "ef" + c)
+    return out[:24]
+
+
 def subject_rule(ctx, model: Model, rule, names):
     """Whatever `re` is applied to must be the very text the caller supplied: positions, captures, pieces and
     replacements are all relative to it."""
-    rich = rich_text(model)
+    for rich in rich_texts(model):
+        _subject_rule_one(ctx, model, rule, names, rich)
+
+
+def _subject_rule_one(ctx, model: Model, rule, names, rich):
     meths = matching_methods(model)
     for name in names:
         f = meths[name]
@@ -374,7 +413,7 @@ def subject_rule(ctx, model: Model, rule, names):
             if kind == "return" and hasattr(v, "__next__"):
                 list(v)
             seen = [c.get("subject") for c in hooks.calls if c.get("subject") is not None]
-            inp = f"{name}(text with CR LF, controls, U+FFFF and the source's own string constants) compiled={compiled}"
+            inp = f"{name}(text {rich[:12]!r}... of {len(rich)} characters: CR LF, controls, U+FFFF, BOM, the source's own string constants) compiled={compiled}"
             ctx.instance(rule, key=inp, sample=f"{inp}: re received {len(seen)} subject(s), identical to the source: {all(x == rich for x in seen)}")
             bad = [x for x in seen if x != rich]
             if bad or kind == "raise":
